@@ -22,8 +22,17 @@ RULE = ("random data D (Atom | List | Map | Seq | Absent; nesting depth <= 5, co
         "nullable choice, a single-child chain, a two-level choice or a kept symbol; D is rendered to text with "
         "random white space, line breaks, // and /* */ comments between the tokens (final delimiters where allowed, "
         "a forbidden final delimiter in the reject stream) and parsed with and without the default cleanup; plus "
-        "every combination of constructor arguments of the three templates (productions only).  Non-trivial = a "
-        "parsed text whose data contains a container with >= 2 entries or a container nested in a container.")
+        "every combination of constructor arguments of the three templates (productions only); plus histories (kind "
+        "'hist'): ONE parser object of a random grammar of the family on which 5-12 calls are made one after another - "
+        "the main text parsed at the beginning, in the middle and at the end (with parse(), parse(do_cleanup=False) + "
+        "cleanup(), parse(do_cleanup=False)), other texts, rejected texts, calls with an explicit start_symbol_name "
+        "(item / value / key symbols of the templates, the template symbols, any other non-terminal; with a text derived "
+        "from that symbol or with a text the symbol does not derive), in ~30% of the histories a second parser object "
+        "constructed in between (given the SAME keep_symbols set object, an equal set, or - expected to be refused - the "
+        "same template objects under other symbol names) and used interleaved with the first.  Each call is also made on "
+        "a parser object constructed for that call alone (its result must be equal; its raw tree is the model's input).  "
+        "Non-trivial = a parsed text whose data contains a container with >= 2 entries or a container nested in a "
+        "container; a history: at least two calls with cleanup on one object returned containers.")
 TRUSTED_BASE = [
     "python dict(pairs): insertion ordered, a repeated key keeps its first position and takes the last value, list/dict keys raise "
     "TypeError (modelled by py_dict; compared with the implementation on every run)",
@@ -31,7 +40,13 @@ TRUSTED_BASE = [
     "not parse: it cleans the implementation's raw tree, and flattens the implementation's tree of the same text under the grammar "
     "whose sequences are written as plain productions",
     "gen/C05_Consts.v: the four name suffixes of the generated symbols and the shape of the is_leaf() branch of StdCleanuper._cleanup "
-    "(does it descend into the elements of a sequence) are read from ak/llparser.py by harness/props/c05.py:gen_consts (ast, fail-closed)",
+    "(does it descend into the elements of a sequence) are read from ak/llparser.py by harness/props/c05.py:gen_consts (ast, fail-closed); "
+    "likewise keep_copied: StdCleanuper.make initialises the cleanuper's keep_symbols with a copy of the constructor argument and "
+    "changes it only by .add(start symbol)",
+    "histories: the model has no parser state besides the cleanup environment made from the constructor arguments (call_step returns it "
+    "unchanged); that the implementation keeps nothing else between calls is compared on the generated histories only (every call "
+    "against the model on the raw tree of a parser object made for that call alone, and against that object's own result), not proved "
+    "of the source",
 ]
 ASSUMPTIONS = [
     "no symbol has two equal productions (then _make_squash_data on the factorized productions equals the one on the original ones)",
@@ -41,7 +56,8 @@ ASSUMPTIONS = [
     "(hypotheses of the denotation theorems)",
 ]
 MODELLED = ("ak/llparser.py ListProds, MapProds (constructor, complete_init, gen_productions, transform_t_elem and helpers), "
-            "ProdSequence.gen_productions, LLParser._process_seq_telement, StdCleanuper._make_squash_data/_cleanup; not modelled: "
+            "ProdSequence.gen_productions, LLParser._process_seq_telement, StdCleanuper._make_squash_data/_cleanup, StdCleanuper.make (private "
+            "keep set), a parser object used for a sequence of parse()/cleanup() calls (run_calls); not modelled: "
             "tokenizer, parse loop (C01-C04), AnyTokenExcept, verify_grammar, source positions of cleaned elements")
 
 
@@ -764,9 +780,13 @@ def make_history(rng, g, second=None):
         elif r < 0.65:
             o = make_case(rng, g, max_depth=2, max_len=3)
             c = default_call(o, clean=rng.choice([True, "two", False])) if o else None
-        elif r < 0.75:
+        elif r < 0.72:
             o = make_case(rng, g, reject=True, max_depth=2, max_len=3)
-            c = default_call(o) if o else None
+            c = default_call(o, clean=rng.choice([True, True, "two", False])) if o else None
+        elif r < 0.78:
+            # a text of the whole grammar handed to some other start symbol: usually a call that raises
+            c = {"op": "parse", "p": 0, "text": main["text"], "start": pick_sym(), "clean": rng.choice([True, True, "two"]),
+                 "d": None, "expect": "any"}
         elif r < 0.85:
             c = default_call(main, clean=False)
         else:
@@ -805,7 +825,7 @@ def hist_cases(rng, tier):
     big = tier == "thorough"
     out = []
     kinds = ["choice", "choice", "nullable", "chain", "choice2", "keep", "chainnode", "single"]
-    n = 900 if big else 110
+    n = 600 if big else 110
     for i in range(n):
         g = gen_grammar(rng, {"kind": kinds[i % len(kinds)]})
         r = rng.random()
@@ -948,20 +968,23 @@ def impl_run(case):
     return out
 
 
-def _mutable_ids(x, TElement, acc):
-    """ids of the mutable objects (tree elements, lists, dicts) a result consists of"""
-    if isinstance(x, TElement):
+def _mutable_ids(x, TElement, acc, twice=None):
+    """ids of the mutable objects (tree elements, lists, dicts) a result consists of; twice: those met more than once"""
+    if isinstance(x, (TElement, list, dict)):
+        if id(x) in acc:
+            if twice is not None:
+                twice.append(type(x).__name__)
+            return acc
         acc.add(id(x))
-        _mutable_ids(x.value, TElement, acc)
-    elif isinstance(x, list):
-        acc.add(id(x))
-        for e in x:
-            _mutable_ids(e, TElement, acc)
-    elif isinstance(x, dict):
-        acc.add(id(x))
-        for k, v in x.items():
-            _mutable_ids(k, TElement, acc)
-            _mutable_ids(v, TElement, acc)
+        if isinstance(x, TElement):
+            _mutable_ids(x.value, TElement, acc, twice)
+        elif isinstance(x, list):
+            for e in x:
+                _mutable_ids(e, TElement, acc, twice)
+        else:
+            for k, v in x.items():
+                _mutable_ids(k, TElement, acc, twice)
+                _mutable_ids(v, TElement, acc, twice)
     return acc
 
 
@@ -1009,7 +1032,11 @@ def impl_hist(case, llparser):
     for i, st in enumerate(case["steps"]):
         if st["op"] == "ctor2":
             if st["how"] == "tmpl":
-                r2 = _guard(lambda: ctor(st["start"], prods=prods0))
+                # the same template objects under other symbol names in a second grammar
+                ren = {n: n + "B" for n in tm0}
+                prods2 = {ren.get(n, n): (v if n in tm0 else [tuple(ren.get(x, x) for x in a) if a else None for a in v])
+                          for n, v in prods0.items()}
+                r2 = _guard(lambda: ctor(st["start"], prods=prods2))
             else:
                 r2 = _guard(lambda: ctor(st["start"], keep=shared_keep if st["how"] == "keep" else None))
             if r2[0] == "ok":
@@ -1037,8 +1064,13 @@ def impl_hist(case, llparser):
             o["raw"] = _guard(lambda: raw_obs(ctor(s0).parse(st["text"], do_cleanup=False, **kw)))
         out["steps"].append(o)
     # results are separate objects and stay what they were
-    ids = [(i, _mutable_ids(x, TE, set())) for i, x, _ in held]
-    out["alias"] = [[i, j] for a, (i, si) in enumerate(ids) for (j, sj) in ids[a + 1:] if si & sj][:5]
+    ids, within = [], []
+    for i, x, _ in held:
+        tw = []
+        ids.append((i, _mutable_ids(x, TE, set(), tw)))
+        if tw:
+            within.append([i, i])
+    out["alias"] = (within + [[i, j] for a, (i, si) in enumerate(ids) for (j, sj) in ids[a + 1:] if si & sj])[:5]
     out["mut"] = [i for i, x, pic in held
                   if (raw_obs(x) if case["steps"][i]["clean"] is False else clean_obs(x, TE)) != pic][:5]
     out["keepset"] = [keep_before, sorted(shared_keep)]
@@ -1421,6 +1453,9 @@ def oracle_hist(case, obs):
                 sig, msg = oc.fails[0]
                 fails.append((sig, f"{here}: {msg}; calls before: {before}"))
     for i, j in obs.get("alias", []):
+        if i == j:
+            fails.append(("results-aliased", f"the result of step {i} {_describe(steps[i])} holds the same mutable object at two places"))
+            continue
         fails.append(("results-aliased", f"the results of step {i} {_describe(steps[i])} and step {j} {_describe(steps[j])} share a mutable object"))
     for i in obs.get("mut", []):
         fails.append(("earlier-result-mutated", f"the result of step {i} {_describe(steps[i])} was changed by a later call"))
@@ -1505,7 +1540,13 @@ LEVEL_TEXT = ("Partial. Proved in Coq for ALL derivation trees (any length, any 
               "list_option_combinations), final_delim_rejected, map_denote + map_dict_semantics (first position, last value), "
               "map_empty_brackets, map_absent_optional, seq_denote (in-parse flattening), squash_item_partial, nested (containers in "
               "containers through one-level choice items, to any depth, incl. containers as sequence elements for the repaired "
-              "cleanup: nested_in_sequence), source_shape (the current source does descend into sequences). Refuted and kept "
+              "cleanup: nested_in_sequence), source_shape (the current source does descend into sequences and copies the keep_symbols "
+              "argument), history_independent (in the model a call returns the parser state unchanged and the k-th result of any "
+              "sequence of calls on one parser object is the cleanup of the k-th raw tree, so the denotation theorems hold for every "
+              "call of a history; that the implementation has no memory between calls - keep_symbols, squash data, the templates' "
+              "signature tables, the default start symbol, cached or shared result objects - is NOT proved of the source, it is "
+              "tested by the history cases: correspondence per call, equality with a parser object made for the call alone, no "
+              "mutable object shared between two results, earlier results unchanged). Refuted and kept "
               "visible: squash_item_refuted (a choice symbol below a choice symbol stays a tree element: by design of the "
               "cleanup, the oracle accepts such wrappers), nested_in_sequence_refuted + sequence_elements_untouched_without_descent "
               "(the cleanup before commit c9bcabb). NOT proved, only tested by correspondence/oracle: template_unambiguous_statement "
@@ -1513,7 +1554,8 @@ LEVEL_TEXT = ("Partial. Proved in Coq for ALL derivation trees (any length, any 
               "two-level choices or kept symbols, ordinary multi-child elements between containers (e.g. '(' SEQ ')'), keep_symbols, "
               "AnyTokenExcept items, and everything before the raw tree (tokenizer, skipped text, parse loop: C01-C04).")
 LEVEL_NOTE = ("Trusted: Coq kernel + vm_compute; fidelity of the hand model (checked on ~1000 (quick) / ~11000 (thorough) generated "
-              "texts per run plus 139 constructor-argument combinations, not proved); python dict(); that the tree given to the cleanup "
+              "texts per run plus 139 constructor-argument combinations plus ~110 (quick) / ~600 (thorough) call histories of 5-12 calls, "
+              "not proved); python dict(); that the tree given to the cleanup "
               "is the one parse(do_cleanup=False) returns; the ast extractor and the harness. The hypothesis `valid` of the theorems is "
               "checked on every implementation tree of the run (VALID part of the observation). Print Assumptions: closed under the "
               "global context for every theorem.")
